@@ -70,15 +70,16 @@ fn c01_k3_end_read_retires_only_own_entries() {
 /// (both entries reach the table file when the record is enacted); the page content is the latest.
 crate::verif_env! {
 #[kani::proof]
-#[kani::unwind(66)]
-fn c10_m1_modified_masks_accumulate() {
+#[kani::unwind(10)]
+fn c10_m1_ref_count_masks_accumulate() {
 	let overlays = RwLock::new(LogOverlays::with_columns(0));
 	let mut w = LogWriter::new(&overlays, 7);
 	let rt = RefCountTableId::new(0, 16);
-	let it = IndexTableId::new(0, 16);
 	let (s1, s2): (u8, u8) = (kani::any(), kani::any());
 	kani::assume(s1 < 32 && s2 < 32);
-	let (p1, p2): (u64, u64) = (kani::any(), kani::any());
+	let p1: u64 = kani::any();
+	let same: bool = kani::any();
+	let p2 = if same { p1 } else { p1 ^ 1 };
 	let (m1, m2): (u8, u8) = (kani::any(), kani::any());
 	let mut c1 = RefCountChunk([0u8; 512]); c1.0[3] = m1;
 	let mut c2 = RefCountChunk([0u8; 512]); c2.0[3] = m2;
@@ -86,26 +87,45 @@ fn c10_m1_modified_masks_accumulate() {
 	w.insert_ref_count(rt, p2, s2, c2);
 	let got1 = w.log.local_ref_count.get(&rt).and_then(|o| o.map.get(&p1)).map(|(id, mask, d)| (*id, *mask, d.0[3]));
 	let got2 = w.log.local_ref_count.get(&rt).and_then(|o| o.map.get(&p2)).map(|(id, mask, d)| (*id, *mask, d.0[3]));
-	if p1 == p2 {
+	if same {
 		assert!(got2 == Some((7, (1u64 << s1) | (1u64 << s2), m2)), "C10.M1 ref-count page: both modified entries stay marked, latest content");
 	} else {
 		assert!(got1 == Some((7, 1u64 << s1, m1)) && got2 == Some((7, 1u64 << s2, m2)), "C10.M1 distinct pages are logged separately");
 	}
-	// same for index pages (64 entries)
+	let seen = LogQuery::ref_count(&w, rt, p2, |c| c.0[3]);
+	assert!(seen == Some(m2), "C10.M1 the record sees its own latest ref-count page");
+	kani::cover!(same && s1 != s2);
+	kani::cover!(!same);
+	std::mem::forget(w);
+	std::mem::forget(overlays);
+}
+}
+
+crate::verif_env! {
+#[kani::proof]
+#[kani::unwind(10)]
+fn c09_m1_index_masks_accumulate() {
+	let overlays = RwLock::new(LogOverlays::with_columns(0));
+	let mut w = LogWriter::new(&overlays, 7);
+	let it = IndexTableId::new(0, 16);
 	let (i1, i2): (u8, u8) = (kani::any(), kani::any());
 	kani::assume(i1 < 64 && i2 < 64);
+	let p1: u64 = kani::any();
+	let same: bool = kani::any();
+	let p2 = if same { p1 } else { p1 ^ 1 };
+	let (m1, m2): (u8, u8) = (kani::any(), kani::any());
 	let mut d1 = IndexChunk([0u8; 512]); d1.0[5] = m1;
 	let mut d2 = IndexChunk([0u8; 512]); d2.0[5] = m2;
 	w.insert_index(it, p1, i1, d1);
 	w.insert_index(it, p2, i2, d2);
+	let g1 = w.log.local_index.get(&it).and_then(|o| o.map.get(&p1)).map(|(id, mask, d)| (*id, *mask, d.0[5]));
 	let g2 = w.log.local_index.get(&it).and_then(|o| o.map.get(&p2)).map(|(id, mask, d)| (*id, *mask, d.0[5]));
-	if p1 == p2 { assert!(g2 == Some((7, (1u64 << i1) | (1u64 << i2), m2)), "C09.M1 index page: both modified entries stay marked, latest content"); }
-	else { assert!(g2 == Some((7, 1u64 << i2, m2)), "C09.M1 distinct index pages are logged separately"); }
-	// the writer reads its own pages back
-	let seen = LogQuery::ref_count(&w, rt, p2, |c| c.0[3]);
-	assert!(seen == Some(m2), "C10.M1 the record sees its own latest ref-count page");
-	kani::cover!(p1 == p2 && s1 != s2);
-	kani::cover!(p1 != p2);
+	if same { assert!(g2 == Some((7, (1u64 << i1) | (1u64 << i2), m2)), "C09.M1 index page: both modified entries stay marked, latest content"); }
+	else { assert!(g1 == Some((7, 1u64 << i1, m1)) && g2 == Some((7, 1u64 << i2, m2)), "C09.M1 distinct index pages are logged separately"); }
+	let seen = LogQuery::with_index(&w, it, p2, |c| c.0[5]);
+	assert!(seen == Some(m2), "C09.M1 the record sees its own latest index page");
+	kani::cover!(same && i1 != i2);
+	kani::cover!(!same);
 	std::mem::forget(w);
 	std::mem::forget(overlays);
 }
